@@ -14,6 +14,7 @@ G = 4096
 PATTERNS = {
     # name: (elements, positions in Angstrom (multiples of 1/16), tags)
     "asym4": (["C", "N", "O", "H"], [[0, 0, 0], [1.5, 0, 0], [1.5, 1.25, 0], [0.25, 0.5, 1.0]], {"asymmetric"}),
+    "metal4": (["N", "Cu", "O", "Cl"], [[0, 0, 0], [1.875, 0, 0], [2.5, 1.75, 0], [0.5, 0.75, 1.25]], {"asymmetric"}),
     "chiral5": (["C", "H", "F", "Cl", "Br"], [[0, 0, 0], [0.625, 0.625, 0.625], [-0.75, -0.75, 0.75], [-1.0, 1.0, -1.0], [1.125, -1.125, -1.125]], {"chiral"}),
     "weakchiral4": (["C", "N", "O", "H"], [[0, 0, 0], [1.5, 0, 0], [1.5, 1.25, 0], [0.25, 0.5, 0.3125]], {"chiral"}),
     "mirrorsym5": (["C", "H", "H", "F", "Cl"], [[0, 0, 0], [0.625, 0.875, 0.5], [0.625, -0.875, 0.5], [-1.25, 0, 0.375], [0.25, 0, -1.5]], {"symmetric"}),
@@ -23,6 +24,7 @@ PATTERNS = {
     "single": (["Zr"], [[0, 0, 0]], {"single"}),
     "collinear3": (["O", "C", "O"], [[-1.125, 0, 0], [0, 0, 0], [1.125, 0, 0]], {"collinear", "symmetric"}),
     "bent3_y": (["C", "O", "N"], [[0, 0, 0], [0, 1.25, 0], [1.0, 1.75, 0]], {"asymmetric", "planar"}),
+    "shallow3": (["C", "N", "O"], [[0, 0, 0], [4.0, 0.625, 0], [8.0, 0, 0]], {"asymmetric", "planar", "shallow"}),
     "planar_sym4": (["C", "C", "C", "C"], [[0, 0, 0], [1.5, 0, 0], [1.5, 1.5, 0], [0, 1.5, 0]], {"symmetric", "planar"}),
     "tri_sym3": (["N", "N", "N"], [[0, 0, 0], [1.5, 0, 0], [0.75, 1.3125, 0]], {"symmetric", "planar"}),
     "ch2f2": (["C", "H", "H", "F", "F"], [[0, 0, 0], [0.625, 0.625, 0.625], [-0.625, -0.625, 0.625], [-0.8125, 0.8125, -0.8125], [0.8125, -0.8125, -0.8125]], {"symmetric"}),
@@ -159,7 +161,7 @@ def make_case(rng, k, flavor="mixed", pattern=None, big=None):
     last_offs = []
     planted_offs = []
 
-    def try_add(points, elements, far_from_origin=False, forced_q=None, corner=None):
+    def try_add(points, elements, far_from_origin=False, forced_q=None, corner=None, stretch=False):
         for attempt in range(60):
             pose = rng.choice(["random", "random", "axis"])
             q = rand_quat(rng, pose)
@@ -187,6 +189,14 @@ def make_case(rng, k, flavor="mixed", pattern=None, big=None):
                 first = (points @ qrot(q).T)[0]
                 fr = fr0 - first @ inv
             cand = points @ qrot(q).T + grid(fr @ cell)
+            if stretch and len(points) > 1:
+                # stretch the (unwrapped) copy along its longest pair by 0.8 atol: every atom stays inside the tolerance of the fit
+                # anchored at the first axis atom
+                bi, bj = max(((i, j) for i in range(len(points)) for j in range(len(points))), key=lambda ij: np.linalg.norm(points[ij[1]] - points[ij[0]]))
+                dv = cand[bj] - cand[bi]
+                u = dv / np.linalg.norm(dv)
+                tt = np.array([np.dot(x - cand[bi], u) for x in cand]) / np.linalg.norm(dv)
+                cand = cand + np.outer(tt, u) * 0.8 * tol
             nimg = len(set(tuple(np.floor((cand @ inv)[i] + 1e-12).astype(int)) for i in range(len(cand))))
             cw = place(rng, cell, inv, cand)
             if cw is None:
@@ -201,12 +211,12 @@ def make_case(rng, k, flavor="mixed", pattern=None, big=None):
         corner = None
         if flavor == "corners" and c == 0:
             corner = (0, 0, 0) if rng.random() < 0.34 else tuple(rng.randrange(2) for _ in range(3))
-        r = try_add(pp, el, far_from_origin=(ckind == "big" and c == 0 and corner is None), forced_q=forced_q, corner=corner)
+        r = try_add(pp, el, far_from_origin=(ckind == "big" and c == 0 and corner is None), forced_q=forced_q, corner=corner, stretch=(flavor == "stretched"))
         if r is None:
             continue
         cw, nimg, pose, q = r
         # positional noise <= atol/8 per coordinate, snapped
-        if rng.random() < 0.4 and forced_q is None:
+        if rng.random() < 0.4 and forced_q is None and flavor != "stretched":
             cw2 = grid(cw + np.array([[rng.uniform(-tol / 8, tol / 8) for _ in range(3)] for _ in range(n)]))
             ff = cw2 @ inv
             if ff.min() > 1e-9 and ff.max() < 1 - 1e-9:
@@ -228,6 +238,26 @@ def make_case(rng, k, flavor="mixed", pattern=None, big=None):
                 pos += list(r[0])
                 els += el
                 decoys.append("mirror")
+        # same geometry, but one atom (not the first) has an element whose symbol is a prefix of the pattern's (C for Cl / Cu, B for Br, ...)
+        two = [i for i in range(1, n) if len(el[i]) == 2 and el[i][0] in ("C", "B", "S", "H", "N", "O", "F")]
+        if two and rng.random() < 0.8:
+            i = rng.choice(two)
+            el2 = list(el)
+            el2[i] = el[i][0]
+            r = try_add(pp, el2)
+            if r is not None:
+                pos += list(r[0])
+                els += el2
+                decoys.append("element-prefix")
+        # flattened copy of a shallow triangle: all pair distances agree within atol, the apex does not
+        if "shallow" in tags:
+            d = pp.copy()
+            d[1] = grid(pp[1] - (pp[1] - (pp[0] + pp[2]) / 2) * 0.92)
+            r = try_add(d, el)
+            if r is not None:
+                pos += list(r[0])
+                els += el
+                decoys.append("flattened")
         # near miss: one atom displaced by 6-8 atol along the line to its farthest partner
         if rng.random() < 0.6:
             d = pp.copy()
